@@ -366,17 +366,20 @@ func (propC04) Judge(sc *Scenario) *Verdict {
 			if r.Err != "injected" || (p.Fault.Callee != nil && r.Injected != p.Fault.Callee.ID) {
 				v.fail("c04:command-error-not-returned-unchanged", fmt.Sprintf("Execute/handler failed with injected error #%d; ParseArgs must return it unchanged, got %s/%s %q (argv=%q)", p.Fault.Callee.ID, r.Err, r.ErrType, clip(string(r.Msg), 200), argv))
 			}
-		} else if r.Err != "flags.Error" || r.ErrType != p.Fault.Expect {
-			v.fail("c04:wrong-error-type:"+p.Fault.Expect, fmt.Sprintf("fault %s (%s) must be rejected as *flags.Error of type %q, got %s/%s %q\nargv=%q (valid line was %q)", p.Fault.Kind, p.Fault.Text+p.Fault.EnvKey, p.Fault.Expect, r.Err, r.ErrType, clip(string(r.Msg), 200), argv, p.Plan.argv()))
+		} else if r.Err != "flags.Error" || !strings.Contains("|"+p.Fault.Expect+"|", "|"+r.ErrType+"|") {
+			v.fail("c04:wrong-error-type:"+strings.SplitN(p.Fault.Expect, "|", 2)[0], fmt.Sprintf("fault %s (%s) must be rejected as *flags.Error of type %q, got %s/%s %q\nargv=%q (valid line was %q)", p.Fault.Kind, p.Fault.Text+p.Fault.EnvKey, p.Fault.Expect, r.Err, r.ErrType, clip(string(r.Msg), 200), argv, p.Plan.argv()))
 		}
 	}
 	// every rejection produced by the library itself is a *flags.Error with a documented type
 	if r.Err != "" && r.Err != "flags.Error" && r.Err != "injected" {
 		foreignOK := false
 		for _, a := range bArgs(sc) {
-			if a.Kind != "string" && a.Kind != "[]string" {
+			if a.Kind != "string" && a.Kind != "[]string" && (strings.Contains(string(r.Msg), "strconv.") || strings.Contains(string(r.Msg), "time: ")) {
 				foreignOK = true // positional conversion errors are returned raw; the statement does not list them
 			}
+		}
+		if d.UnknownHandler == "fail" {
+			foreignOK = true // the unknown-option handler's own error is handed back as is
 		}
 		if !foreignOK {
 			v.fail("c04:untyped-rejection", fmt.Sprintf("a rejection by the parser must be a *flags.Error, got %s %q for argv=%q", r.Err, clip(string(r.Msg), 200), argv))
